@@ -58,6 +58,8 @@ var regOps = []regOp{
 	{"replace", "Custom", "Custom"}, {"add", "Custom", "Custom"}, {"add", "ScalarLeafs", "ScalarLeafs"}, {"replace", "ScalarLeafs", "ScalarLeafs"},
 	// a name registered twice (AddRule does not de-duplicate), so that a later ReplaceRule / RemoveRule has two entries to act on
 	{"add", "KnownArgumentNames", "KnownArgumentNames"}, {"replace", "Custom", "ScalarLeafs"},
+	// a rule registered under a name that another name is a prefix of; names that are a prefix of registered names, or empty
+	{"add", "KnownArgumentNamesWithoutSuggestions", "KnownArgumentNamesWithoutSuggestions"}, {"remove", "Known", ""}, {"remove", "", ""},
 }
 
 func regInitial() []regEntry {
@@ -115,6 +117,7 @@ func regReset() {
 		validator.RemoveRule(r.Name)
 	}
 	validator.RemoveRule("Custom")
+	validator.RemoveRule("KnownArgumentNamesWithoutSuggestions")
 	for _, r := range c18Standard {
 		validator.AddRule(r.Name, r.RuleFunc)
 	}
